@@ -779,6 +779,10 @@ def main(argv=None):
     hows = collections.Counter()
     disagreements = []
     nq = 0
+    leak_bad = []     # outcome tree/none/Syntax although a scope leak event was logged
+    drop_tree = collections.Counter()   # a tree was returned although items were dropped
+    open_scope = collections.Counter()  # runs that end with a scope still open, by outcome
+    stale = 0         # failed parse that leaves tables behind
     for src, how, std, ic, pd in cases:
         dis, info = check_source(model, src, std=std, ignore_comments=ic, process_directives=pd,
                                  want_info=True)
@@ -788,6 +792,17 @@ def main(argv=None):
             ghosts[g] += 1
         classes.update(info["classes"].keys())
         nq += info["queries"]
+        gh = set(info["ghost"])
+        if info["outcome"] in ("tree", "none", "raise:Syntax") and \
+                gh & {"scopeLeak", "main0Leak", "emptyScopeName"}:
+            leak_bad.append((how, info["outcome"], src))
+        if info["outcome"] == "tree":
+            for g in gh & {"seqDrop", "hookDrop", "progDrop", "noMatchDrop"}:
+                drop_tree[g] += 1
+        if info["chain"]:
+            open_scope[info["outcome"]] += 1
+        if info["outcome"] != "tree" and info["forest"]:
+            stale += 1
         if dis:
             dis["how"] = how
             disagreements.append(dis)
@@ -806,6 +821,13 @@ def main(argv=None):
                  "Include_Stmt", "Cpp_If_Stmt", "Cpp_Macro_Stmt", "Cpp_Endif_Stmt")))
     print("  mutation x outcome: " + ", ".join(
         "%s/%s=%d" % (k[0], k[1], v) for k, v in sorted(hows.items())))
+    print("  property view of the runs (model = code on every run that agrees):")
+    print("    C09 scope left open, by outcome: %s" % (dict(open_scope) or "none"))
+    print("    C09 leak event with outcome tree/none/Syntax: %d%s" % (
+        len(leak_bad), "".join("\n      [%s %s]\n%s" % (h, o, "\n".join(
+            "        | " + l for l in sx.splitlines())) for h, o, sx in leak_bad[:3])))
+    print("    C16 failed parse leaving symbol tables: %d" % stale)
+    print("    C02/C08 tree returned although items were dropped: %s" % (dict(drop_tree) or "none"))
     print("  disagreements: %d" % len(disagreements))
     for d in disagreements[:10]:
         print("   - [%s %s] %s at step %s: real=%r model=%r\n%s" % (
